@@ -18,6 +18,7 @@ VARS = ['x', 'y', 'z', 'w']
 GLOBS = ['ga', 'gb']
 KIDS = ['k1', 'k2', 'k3']
 PORTS = ['pa', 'pb', 'pc', 'pd']
+GLOBDICT_WEIGHT = [0]      # weight of glob ports with a '*' sub-topology in gen_port (set by the callers)
 ALL_NAMES = COMPS + BRANCH + NEST + VARS + GLOBS + KIDS + PORTS + ['p0', 'p1', 'p2', 'p3']
 
 
@@ -53,8 +54,20 @@ def gen_target(rng, depth, minlen=0):
 
 
 def gen_port(rng, depth):
-    kind = rng.choices(['vars', 'vars', 'vars', 'glob', 'output', 'dictpath', 'dictnopath'],
-                       [3, 3, 2, 2, 1, 3, 2])[0]
+    kind = rng.choices(['vars', 'vars', 'vars', 'glob', 'output', 'dictpath', 'dictnopath', 'globdict'],
+                       [3, 3, 2, 2, 1, 3, 2, GLOBDICT_WEIGHT[0]])[0]
+    if kind == 'globdict':
+        # a glob port whose topology entry is a dict with a '*' sub-topology; '_path' beside or inside it
+        vs = rng.sample(VARS, rng.randint(1, 2))
+        sub = {'$node': {'out': False, 'c': [[v, gen_var(rng)] for v in vs]}}
+        sch = {'$node': {'out': False, 'c': [['*', sub]]}}
+        # every declared sub-variable is listed (well-formed domain: an unlisted one is read at its default
+        # place while its updates are dropped, as for a dict topology without '_path')
+        ents = [[v, {'$path': rng.choice([[v], [rng.choice(NEST), v], [rng.choice(VARS)]])}] for v in vs]
+        base = ups(rng, depth) + [rng.choice(GLOBS)]
+        if rng.random() < 0.5:
+            return sch, {'$dict': {'path': base, 'c': [['*', {'$dict': {'path': None, 'c': ents}}]]}}
+        return sch, {'$dict': {'path': None, 'c': [['*', {'$dict': {'path': base, 'c': ents}}]]}}
     if kind in ('vars', 'output'):
         sch = {'$node': {'out': kind == 'output', 'c': gen_vars_schema(rng)}}
         return sch, {'$path': gen_target(rng, depth, 0 if rng.random() < 0.2 else 1)}
@@ -310,17 +323,22 @@ def run_impl(c):
         return {'ok': [dump_view(tv), view_to_values(tv)]}
     upd = dec_update(c['upd'])
     upd0 = copy.deepcopy(upd)
+    tp = {k: py_topo(x) for k, x in p['topo']}
+    tp0 = copy.deepcopy(tp)
     try:
-        inv = inverse_topology(tuple(p['parent']), upd, {k: py_topo(x) for k, x in p['topo']})
+        inv = inverse_topology(tuple(p['parent']), upd, tp)
+        # the engine hands the same topology object to every later call
+        again = inverse_topology(tuple(p['parent']), copy.deepcopy(upd0), tp)
     except Exception as e:
         return {'err': 'invert:' + type(e).__name__ + ':' + str(e)[:120]}
+    mut = {'update_mutated': upd != upd0, 'topology_mutated': tp != tp0 or again != inv}
     if kind == 'invert':
-        return {'ok': enc_update(inv), 'update_mutated': upd != upd0}
+        return dict({'ok': enc_update(inv)}, **mut)
     try:
         store.apply_update(inv)
     except Exception as e:
         return {'err': 'apply:' + type(e).__name__ + ':' + str(e)[:120]}
-    return {'ok': dump_values(store)}
+    return dict({'ok': dump_values(store)}, **mut)
 
 
 def prepare(procs, init):
